@@ -2,6 +2,7 @@ package symex
 
 import (
 	"os"
+	"path"
 	"path/filepath"
 	"sort"
 	"strings"
@@ -32,12 +33,12 @@ type fsNode struct {
 // fsState lives in the heap as an *Opaque-free immutable map copy (object content must be mergeable):
 // it is stored as a *StructV whose fields follow fsPaths order: each path = StructV{Kind, Len, B0..}
 type fsModel struct {
-	obj   int
-	paths []string
-	index map[string]int
+	obj      int
+	paths    []string
+	index    map[string]int
 	tplDirs  map[string]bool
 	tplFiles map[string]int // path -> content code
-	order []string // template walk order
+	order    []string       // template walk order
 }
 
 func (ex *Exec) fsm(st *State) *fsModel {
@@ -215,32 +216,35 @@ func registerFSStubs(ex *Exec) {
 		return Nil
 	}
 	S["(*os.File).Write"] = func(ex *Exec, st *State, site ssa.Instruction, fn *ssa.Function, args []Value) Value {
-		return ex.withChoice(st, args[0], func(st *State, fv Value) Value {
-			f, ok := fv.(*Opaque)
-			if !ok {
-				ex.outcome("panic", "Write on a nil *os.File", site, st.pc)
-				st.kill()
-				return nil
-			}
-			p, _ := f.Data["path"].(*StrV).Concrete()
-			i, n := ex.fsNodeOf(st, p)
-			data := args[1].(*SliceV)
-			dl := data.Len
-			elems := ex.sliceElems(st, data)
-			// the file offset of a freshly opened file is 0: new content = data ++ old[len(data):]
-			oldLen := n.F[1].(*smt.Term)
-			newLen := smt.Ite(smt.Ugt(dl, oldLen), dl, oldLen)
-			nf := []Value{smt.Const(8, fsFile), newLen}
-			for k := 0; k < fsMaxLen; k++ {
-				old := n.F[2+k].(*smt.Term)
-				var nb *smt.Term = old
-				if k < len(elems) {
-					nb = smt.Ite(smt.Ult(bv64(int64(k)), dl), elems[k].(*smt.Term), old)
+		return ex.withChoice(st, args[1], func(st *State, dv Value) Value {
+			return ex.withChoice(st, args[0], func(st *State, fv Value) Value {
+				args := []Value{fv, dv}
+				f, ok := fv.(*Opaque)
+				if !ok {
+					ex.outcome("panic", "Write on a nil *os.File", site, st.pc)
+					st.kill()
+					return nil
 				}
-				nf = append(nf, nb)
-			}
-			ex.fsSetNode(st, i, &StructV{F: nf})
-			return &TupleV{E: []Value{dl, Nil}}
+				p, _ := f.Data["path"].(*StrV).Concrete()
+				i, n := ex.fsNodeOf(st, p)
+				data := args[1].(*SliceV)
+				dl := data.Len
+				elems := ex.sliceElems(st, data)
+				// the file offset of a freshly opened file is 0: new content = data ++ old[len(data):]
+				oldLen := n.F[1].(*smt.Term)
+				newLen := smt.Ite(smt.Ugt(dl, oldLen), dl, oldLen)
+				nf := []Value{smt.Const(8, fsFile), newLen}
+				for k := 0; k < fsMaxLen; k++ {
+					old := n.F[2+k].(*smt.Term)
+					var nb *smt.Term = old
+					if k < len(elems) {
+						nb = smt.Ite(smt.Ult(bv64(int64(k)), dl), elems[k].(*smt.Term), old)
+					}
+					nf = append(nf, nb)
+				}
+				ex.fsSetNode(st, i, &StructV{F: nf})
+				return &TupleV{E: []Value{dl, Nil}}
+			})
 		})
 	}
 	S["io.ReadAll"] = func(ex *Exec, st *State, site ssa.Instruction, fn *ssa.Function, args []Value) Value {
@@ -292,6 +296,30 @@ func registerFSStubs(ex *Exec) {
 		dirN := &StructV{F: append([]Value{smt.Const(8, fsDir), bv64(0)}, absentNode().F[2:]...)}
 		ex.fsSetNode(st, i, mergeV(okC, dirN, n).(*StructV))
 		return mergeV(okC, Value(Nil), mergeV(smt.And(isAbsent, smt.Not(pok)), ex.fsErr(st, true), ex.fsErr(st, false)))
+	}
+	S["path.Base"] = func(ex *Exec, st *State, site ssa.Instruction, fn *ssa.Function, args []Value) Value {
+		return ConcreteStr(path.Base(concreteStrArg(args[0], "path.Base")))
+	}
+	S["path/filepath.Base"] = func(ex *Exec, st *State, site ssa.Instruction, fn *ssa.Function, args []Value) Value {
+		return ConcreteStr(filepath.Base(concreteStrArg(args[0], "filepath.Base")))
+	}
+	S["os.MkdirAll"] = func(ex *Exec, st *State, site ssa.Instruction, fn *ssa.Function, args []Value) Value {
+		p := filepath.Clean(concreteStrArg(args[0], "os.MkdirAll path"))
+		parts := strings.Split(p, "/")
+		failed := smt.False
+		for k := 1; k <= len(parts); k++ {
+			q := strings.Join(parts[:k], "/")
+			if q == "" {
+				continue
+			}
+			i, n := ex.fsNodeOf(st, q)
+			isAbsent := smt.Eq(nodeKind(n), smt.Const(8, fsAbsent))
+			isFile := smt.Eq(nodeKind(n), smt.Const(8, fsFile))
+			dirN := &StructV{F: append([]Value{smt.Const(8, fsDir), bv64(0)}, absentNode().F[2:]...)}
+			ex.fsSetNode(st, i, mergeV(smt.And(isAbsent, smt.Not(failed)), dirN, n).(*StructV))
+			failed = smt.Or(failed, isFile)
+		}
+		return mergeV(failed, ex.fsErr(st, false), Value(Nil))
 	}
 	S["os.Rename"] = func(ex *Exec, st *State, site ssa.Instruction, fn *ssa.Function, args []Value) Value {
 		from := concreteStrArg(args[0], "os.Rename old path")
@@ -345,6 +373,53 @@ func registerFSStubs(ex *Exec) {
 			}
 		}
 		return ret
+	}
+	// filepath.Walk over the symbolic file system: the paths known to the model below root, in the order Walk uses
+	// (depth first, names sorted per directory); a path is visited when it exists and every directory above it up
+	// to root is a directory. A missing root is reported to the callback with a nil FileInfo and an error, as the
+	// real function does. filepath.SkipDir/SkipAll results and unreadable directories are not modelled.
+	S["path/filepath.Walk"] = func(ex *Exec, st *State, site ssa.Instruction, fn *ssa.Function, args []Value) Value {
+		m := ex.fsm(st)
+		root := filepath.Clean(concreteStrArg(args[0], "filepath.Walk root"))
+		cb := args[1]
+		var below []string
+		for _, p := range m.paths {
+			if p == root || strings.HasPrefix(p, root+"/") {
+				below = append(below, p)
+			}
+		}
+		sort.Slice(below, func(i, j int) bool {
+			a, b := strings.Split(below[i], "/"), strings.Split(below[j], "/")
+			for k := 0; k < len(a) && k < len(b); k++ {
+				if a[k] != b[k] {
+					return a[k] < b[k]
+				}
+			}
+			return len(a) < len(b)
+		})
+		_, rn := ex.fsNodeOf(st, root)
+		rootAbsent := smt.Eq(nodeKind(rn), smt.Const(8, fsAbsent))
+		var steps []walkStep
+		steps = append(steps, walkStep{path: root, guard: rootAbsent, missing: true})
+		for _, p := range below {
+			_, n := ex.fsNodeOf(st, p)
+			vis := smt.Not(smt.Eq(nodeKind(n), smt.Const(8, fsAbsent)))
+			for d := filepath.Dir(p); p != root && len(d) >= len(root); d = filepath.Dir(d) {
+				_, dn := ex.fsNodeOf(st, d)
+				vis = smt.And(vis, smt.Eq(nodeKind(dn), smt.Const(8, fsDir)))
+				if d == root {
+					break
+				}
+			}
+			if vis.IsFalse() {
+				continue
+			}
+			steps = append(steps, walkStep{path: p, guard: vis, isDir: smt.Eq(nodeKind(n), smt.Const(8, fsDir))})
+		}
+		return ex.walkSteps(st, site, steps, cb)
+	}
+	S["FileInfo.Name"] = func(ex *Exec, st *State, site ssa.Instruction, fn *ssa.Function, args []Value) Value {
+		return args[0].(*Opaque).Data["name"]
 	}
 	S["DirEntry.IsDir"] = func(ex *Exec, st *State, site ssa.Instruction, fn *ssa.Function, args []Value) Value {
 		return args[0].(*Opaque).Data["isdir"]
@@ -409,6 +484,77 @@ func (ex *Exec) walkRest(st *State, site ssa.Instruction, m *fsModel, root, afte
 			ex.Forks++
 			st.assume(smt.Not(isErr))
 			rest := ex.walkRest(st, site, m, root, p, cb)
+			dst := &State{}
+			mergeStates(dst, isErr, s2, st)
+			*st = *dst
+			return mergeV(isErr, r, rest)
+		}
+	}
+	return Nil
+}
+
+type walkStep struct {
+	path    string
+	guard   *smt.Term
+	isDir   *smt.Term
+	missing bool // the root does not exist: callback(root, nil, err)
+}
+
+// walkSteps calls the Walk callback for each step whose guard holds; the first non-nil result ends the walk.
+func (ex *Exec) walkSteps(st *State, site ssa.Instruction, steps []walkStep, cb Value) Value {
+	for k, sp := range steps {
+		if sp.guard.IsFalse() {
+			continue
+		}
+		var r Value = Nil
+		call := func(st *State) {
+			if sp.missing {
+				r = ex.applyFuncValue(st, site, cb, []Value{ConcreteStr(sp.path), Nil, ex.fsErr(st, true)}, 1)
+				return
+			}
+			info := ex.newOpaque("FileInfo")
+			info.Data["isdir"] = sp.isDir
+			info.Data["name"] = ConcreteStr(filepath.Base(sp.path))
+			r = ex.applyFuncValue(st, site, cb, []Value{ConcreteStr(sp.path), &IfaceV{T: nil, V: info}, Nil}, 1)
+		}
+		if sp.guard.IsTrue() {
+			call(st)
+		} else {
+			ex.guarded(st, sp.guard, call)
+			if r == nil {
+				r = Nil
+			}
+			r = mergeV(sp.guard, r, Value(Nil))
+		}
+		if st.dead {
+			return Nil
+		}
+		if r == nil {
+			r = Nil // the callback's path ended in a reported panic
+		}
+		if sp.missing {
+			// Walk returns what the callback made of the error; nothing else is visited when the root is missing
+			if sp.guard.IsTrue() {
+				return r
+			}
+			s2 := st.fork(sp.guard)
+			ex.Forks++
+			st.assume(smt.Not(sp.guard))
+			rest := ex.walkSteps(st, site, steps[k+1:], cb)
+			dst := &State{}
+			mergeStates(dst, sp.guard, s2, st)
+			*st = *dst
+			return mergeV(sp.guard, r, rest)
+		}
+		isErr := smt.Not(ex.eqV(r, Nil))
+		if isErr.IsTrue() {
+			return r
+		}
+		if !isErr.IsFalse() {
+			s2 := st.fork(isErr)
+			ex.Forks++
+			st.assume(smt.Not(isErr))
+			rest := ex.walkSteps(st, site, steps[k+1:], cb)
 			dst := &State{}
 			mergeStates(dst, isErr, s2, st)
 			*st = *dst
